@@ -6,8 +6,10 @@ HOME = os.path.dirname(os.path.dirname(os.path.abspath(__file__)))
 props = [json.loads(l) for l in open(f"{HOME}/properties.jsonl")]
 anch = {p["id"]: set(p["anchors"]["files"]) for p in props}
 only = sys.argv[sys.argv.index("--only") + 1] if "--only" in sys.argv else ""
+DIR = sys.argv[sys.argv.index("--dir") + 1] if "--dir" in sys.argv else "refactors"   # "variants": behaviour-CHANGING but property-preserving patches
+OUT = {"refactors": "REFACTORS.md", "variants": "VARIANTS.md"}[DIR]
 rows = []
-for p in sorted(glob.glob(f"{HOME}/refactors/*/patch.diff")):
+for p in sorted(glob.glob(f"{HOME}/{DIR}/*/patch.diff")):
     name = os.path.basename(os.path.dirname(p))
     if only and only not in name:
         continue
@@ -22,9 +24,11 @@ for p in sorted(glob.glob(f"{HOME}/refactors/*/patch.diff")):
         rows.append((name, chk, r.returncode, (", ".join(sorted(set(keys))[:3]) or (herr[0][:120] if herr else ""))[:160], round(time.time() - t0)))
         print(rows[-1], flush=True)
 bad = [r for r in rows if r[2] != 0]
-with open(f"{HOME}/REFACTORS.md", "w") as f:
-    f.write("# Silence on behaviour-preserving refactorings\n\nProduced by `tools/run_refactors.py` (quick tier). Each refactoring is run against the check of its own property and of every property "
-            "whose anchor files it touches. Exit 0 = silent (expected); 1 = false alarm; 2 = harness error.\n\n| refactoring | check | exit | note | s |\n|---|---|---|---|---|\n")
+with open(f"{HOME}/{OUT}", "w") as f:
+    f.write(("# Silence on behaviour-preserving refactorings\n\nProduced by `tools/run_refactors.py` (quick tier). Each refactoring" if DIR == "refactors" else
+             "# Silence on property-preserving behaviour changes\n\nProduced by `tools/run_refactors.py --dir variants` (quick tier). Each variant (a change of behaviour the property leaves open)") +
+            " is run against the check of its own property and of every property "
+            "whose anchor files it touches. Exit 0 = silent (expected); 1 = false alarm; 2 = harness error.\n\n| patch | check | exit | note | s |\n|---|---|---|---|---|\n")
     for r in rows:
         f.write("| %s | %s | %s | %s | %s |\n" % r)
     f.write("\n%d pairs, %d not silent: %s\n" % (len(rows), len(bad), [(r[0], r[1], r[2]) for r in bad]))
